@@ -221,6 +221,45 @@ func d1b() (bool, string) {
 	return false, "adopted, but no excess value"
 }
 
+// ---- D10: an adopted chain whose last block is dated 0 puts the node back into "empty chain" mode:
+// the next tick mints the genesis amount again, at any timestamp
+func d10() (bool, string) {
+	s := settings()
+	adv, host := node.NewWallet(3), node.NewWallet(0)
+	g := &node.RawBlock{Timestamp: -s.Interval}
+	g.SetTxs(node.RewardRaw(adv.Address, true, -s.Interval, s.Genesis))
+	g.Added = []string{adv.Address}
+	b1 := &node.RawBlock{Timestamp: 0}
+	b1.SetTxs(node.RewardRaw(adv.Address, false, 0, 0))
+	chain, err := node.Relink([]*node.RawBlock{g, b1})
+	if err != nil {
+		return false, "build: " + err.Error()
+	}
+	n := node.New("n", s, host.Address)
+	n.Pool.Validate(T0)
+	bytes, _ := json.Marshal(chain)
+	n.Senders.Set([]application.Sender{&node.Sender{TargetValue: "adv", Blocks: func(h uint64) ([]byte, error) {
+		if h == 0 {
+			return bytes, nil
+		}
+		return []byte("[]"), nil
+	}}})
+	n.Chain.Update(T0)
+	if len(n.AllBlocks()) != 2 || n.Chain.LastBlockTimestamp() != 0 {
+		return false, fmt.Sprintf("the chain dated [-interval, 0] was not adopted: %v", tail(n.Log.Drain(), 2))
+	}
+	n.Pool.Validate(T0 + 7*s.Interval + 13)
+	blocks := n.AllBlocks()
+	if len(blocks) == 3 {
+		for _, t := range blocks[2].Transactions() {
+			if t.HasReward() && t.RewardValue() == s.Genesis {
+				return true, fmt.Sprintf("after adopting a chain whose last block is dated 0 the node produced block 2 at an off-grid timestamp with a reward of %d (the genesis amount) and no fees", t.RewardValue())
+			}
+		}
+	}
+	return false, fmt.Sprintf("no second genesis (chain length %d)", len(blocks))
+}
+
 // ---- D3: honest block with a yielding output to an address removed by the previous block is rejected
 // by a peer that holds the same chain plus its own competing tip
 func d3() (bool, string) {
@@ -479,6 +518,7 @@ func d7() (bool, string) {
 
 var witnesses = []witness{
 	{"D1", "C01", "C01/fee-sum-wraps-uint64", d1, false},
+	{"D10", "C01", "C01/genesis-minted-again-after-adopting-chain-dated-zero", d10, false},
 	{"D1b", "C01", "C01/recreated-id-valued-as-old-instance", d1b, false},
 	{"D3", "C05", "C05/competitor-tip/yield-to-address-removed-by-previous-block", d3, false},
 	{"D9", "C11", "C11/same-output-twice-admitted", d9, false},
